@@ -551,3 +551,296 @@ Print Assumptions c02_ex_needs_sha1_length.
 Print Assumptions c02_ex_needs_md5_length.
 Print Assumptions c02_ex_needs_md5_bytes.
 Print Assumptions c02_ex_needs_i64_length.
+
+(** * the whole create pipeline (X7)
+
+    Until here [create_t] hashed a selection [sel] that was given. In the real program the selection
+    is what `Walker::files` lists of the very tree that is hashed (C06). [create_walk] (Model/CreateWalk.v)
+    is [create_t] on [selection c src] = the paths of [Walk.walk c (erase src)], in the walker's order
+    through the real [SortSpec] comparison (user sort keys decide WHICH torrent results, nothing else);
+    [erase] forgets the bytes and keeps the lengths, so C06's theorems apply unchanged. [Fs.node] has
+    no symlinks: the fragment is the link-free trees, where `--follow-symlinks` is irrelevant
+    (c06_walk_erased_follow_irrelevant). [wf_node src]: sibling names distinct, every name a plain
+    component - true of any tree an operating system shows; the examples c02_ex_walk_needs_* show
+    both parts are needed. [walker_selects c src pa d] is the documented meaning without the
+    traversal: [pa] is a regular file holding [d] below [src] and passes C06's per-path predicate
+    (no hidden component unless --include-hidden, last component not junk unless --include-junk, the
+    glob rule); for a regular file as the input it is the file itself.
+    Quantified over: every glob matcher, flag set, glob list, sort specification, well-formed tree,
+    piece length, --md5, name, and every read schedule of the hasher and of the verifier.
+    Proofs: Proofs/CreateWalkProofs.v; instances: Proofs/CreateWalkExamples.v. *)
+From Imdl Require Import Model.CreateWalk Proofs.CreateWalkProofs Proofs.CreateWalkExamples.
+From Imdl Require Model.Walk Proofs.WalkProofs.
+
+(** C06 o C01. The created torrent lists exactly the documented files, each once, in the walker's
+    order (for a directory: [Walk.walk] returns the very list of (path, length) of the files hashed,
+    and that list is sorted by the real comparison); its piece list is one hash per piece of the
+    concatenation of their contents in that order; the entries verify will visit are those files with
+    their lengths (and MD5s with --md5). *)
+Check create_walk_lists : forall pat gmatch H MD5 (c : Walk.cfg pat) md5 p name csch src t,
+  wf_node src -> create_walk pat gmatch H MD5 c md5 p name csch src = Some t ->
+  exists c0,
+    0 < p < 2 ^ 32 /\
+    t = spec_torrent H MD5 md5 p name c0 /\
+    (forall pa d, In (pa, d) (listing_of c0) <-> walker_selects pat gmatch c src pa d) /\
+    NoDup (map fst (listing_of c0)) /\
+    match src with
+    | File d => c0 = Hasher.SingleFile d
+    | Dir _ => Walk.walk pat gmatch c (erase src) = Walk.WalkListing (map sized (listing_of c0)) /\
+               WalkProofs.sorted_by (Walk.sort_by c) (map sized (listing_of c0))
+    end /\
+    paths_of t = map fst (listing_of c0) /\
+    tpieces t = map H (chunks (N.to_nat p) (concat (map snd (listing_of c0)))) /\
+    entries [] t = map (mk_entry MD5 md5 []) (listing_of c0).
+Theorem c02_create_walk_lists_exactly_the_documented_files :
+  forall pat gmatch H MD5 (c : Walk.cfg pat) md5 p name csch src t,
+  wf_node src -> create_walk pat gmatch H MD5 c md5 p name csch src = Some t ->
+  exists c0,
+    0 < p < 2 ^ 32 /\
+    t = spec_torrent H MD5 md5 p name c0 /\
+    (forall pa d, In (pa, d) (listing_of c0) <-> walker_selects pat gmatch c src pa d) /\
+    NoDup (map fst (listing_of c0)) /\
+    match src with
+    | File d => c0 = Hasher.SingleFile d
+    | Dir _ => Walk.walk pat gmatch c (erase src) = Walk.WalkListing (map sized (listing_of c0)) /\
+               WalkProofs.sorted_by (Walk.sort_by c) (map sized (listing_of c0))
+    end /\
+    paths_of t = map fst (listing_of c0) /\
+    tpieces t = map H (chunks (N.to_nat p) (concat (map snd (listing_of c0)))) /\
+    entries [] t = map (mk_entry MD5 md5 []) (listing_of c0).
+Proof. exact create_walk_lists. Qed.
+
+(** the seam itself: on a well-formed tree the walker's selection is never refused, every selected
+    path is plain and is gathered as a regular file, and what is gathered is what [walker_selects] says *)
+Theorem c02_selection_is_the_walkers : forall pat gmatch (c : Walk.cfg pat) src,
+  wf_node src ->
+  exists sel c0,
+    selection pat gmatch c src = Some sel /\ gather src sel = Some c0 /\ Forall plain_path sel /\
+    (forall pa d, In (pa, d) (listing_of c0) <-> walker_selects pat gmatch c src pa d) /\
+    NoDup (map fst (listing_of c0)) /\
+    match src with
+    | File d => c0 = Hasher.SingleFile d
+    | Dir _ => sel = map fst (listing_of c0) /\
+               Walk.walk pat gmatch c (erase src) = Walk.WalkListing (map sized (listing_of c0))
+    end.
+Proof. exact selection_gathers. Qed.
+
+(** creation succeeds for every admissible piece length when no read fails *)
+Theorem c02_create_walk_total : forall pat gmatch H MD5 (c : Walk.cfg pat) md5 p name csch src,
+  wf_node src -> 0 < p < 2 ^ 32 -> Hasher.error_free csch ->
+  exists t, create_walk pat gmatch H MD5 c md5 p name csch src = Some t.
+Proof. exact create_walk_total. Qed.
+
+(** create, then verify against the unmodified tree: success - whatever the flags and globs left out *)
+Check create_walk_then_verify : forall pat gmatch H MD5 (c : Walk.cfg pat) md5 p name csch vsch fs root src t,
+  resolve fs root = Some src -> wf_node src ->
+  create_walk pat gmatch H MD5 c md5 p name csch src = Some t ->
+  verify H MD5 vsch fs root t = Some true.
+Theorem c02_create_walk_then_verify : forall pat gmatch H MD5 (c : Walk.cfg pat) md5 p name csch vsch fs root src t,
+  resolve fs root = Some src -> wf_node src ->
+  create_walk pat gmatch H MD5 c md5 p name csch src = Some t ->
+  verify H MD5 vsch fs root t = Some true.
+Proof. exact create_walk_then_verify. Qed.
+
+(** on ANY later filesystem the verdict is success exactly when every file THE WALKER SELECTED
+    still holds its bytes ([selected_hold]); same [collision_free] hypothesis as
+    c02_verify_tracks_content, used left to right only *)
+Check create_walk_tracks_content : forall pat gmatch H MD5 (c : Walk.cfg pat) md5 p name csch vsch src t root,
+  wf_node src -> create_walk pat gmatch H MD5 c md5 p name csch src = Some t ->
+  exists c0,
+    (forall pa d, In (pa, d) (listing_of c0) <-> walker_selects pat gmatch c src pa d) /\
+    forall fs',
+      collision_free H p (map snd (listing_of c0)) (map (content fs') (entries root t)) ->
+      (verify H MD5 vsch fs' root t = Some true <-> selected_hold pat gmatch c src fs' root).
+Theorem c02_create_walk_tracks_content : forall pat gmatch H MD5 (c : Walk.cfg pat) md5 p name csch vsch src t root,
+  wf_node src -> create_walk pat gmatch H MD5 c md5 p name csch src = Some t ->
+  exists c0,
+    (forall pa d, In (pa, d) (listing_of c0) <-> walker_selects pat gmatch c src pa d) /\
+    forall fs',
+      collision_free H p (map snd (listing_of c0)) (map (content fs') (entries root t)) ->
+      (verify H MD5 vsch fs' root t = Some true <-> selected_hold pat gmatch c src fs' root).
+Proof. exact create_walk_tracks_content. Qed.
+
+Theorem c02_selected_hold_means : forall pat gmatch (c : Walk.cfg pat) src fs' root,
+  selected_hold pat gmatch c src fs' root <->
+  forall pa d, walker_selects pat gmatch c src pa d -> resolve fs' (absolute root pa) = Some (File d).
+Proof. intros. reflexivity. Qed.
+
+(** so edits to hidden / junk / glob-excluded files (or anything else that is not selected) never
+    matter - no hypothesis on the hash functions ... *)
+Theorem c02_create_walk_excluded_edits_irrelevant :
+  forall pat gmatch H MD5 (c : Walk.cfg pat) md5 p name csch vsch src t root fs',
+  wf_node src -> create_walk pat gmatch H MD5 c md5 p name csch src = Some t ->
+  selected_hold pat gmatch c src fs' root -> verify H MD5 vsch fs' root t = Some true.
+Proof. exact create_walk_excluded_edits_irrelevant. Qed.
+
+Theorem c02_create_walk_ignores_unselected :
+  forall pat gmatch H MD5 (c : Walk.cfg pat) md5 p name csch vsch src t root fs1 fs2,
+  wf_node src -> create_walk pat gmatch H MD5 c md5 p name csch src = Some t ->
+  (forall pa d, walker_selects pat gmatch c src pa d -> resolve fs1 (absolute root pa) = resolve fs2 (absolute root pa)) ->
+  verify H MD5 vsch fs1 root t = verify H MD5 vsch fs2 root t.
+Proof. exact create_walk_ignores_unselected. Qed.
+
+(** ... and an edit to any included file always does (injective stand-in for SHA-1) *)
+Theorem c02_create_walk_included_edit_fails :
+  forall pat gmatch H MD5 (c : Walk.cfg pat) md5 p name csch vsch src t root fs' pa d,
+  wf_node src -> create_walk pat gmatch H MD5 c md5 p name csch src = Some t ->
+  (forall a b, H a = H b -> a = b) ->
+  walker_selects pat gmatch c src pa d -> resolve fs' (absolute root pa) <> Some (File d) ->
+  verify H MD5 vsch fs' root t = Some false.
+Proof. exact create_walk_included_edit_fails. Qed.
+
+(** with C06's enumeration_order_independent: two trees that are permutations of each other (at
+    every directory) give the same torrent, hence the same bytes *)
+Check create_walk_order_independent : forall pat gmatch H MD5 (c : Walk.cfg pat) md5 p name csch src src',
+  wf_node src -> node_perm src src' ->
+  create_walk pat gmatch H MD5 c md5 p name csch src = create_walk pat gmatch H MD5 c md5 p name csch src'.
+Theorem c02_create_walk_order_independent : forall pat gmatch H MD5 (c : Walk.cfg pat) md5 p name csch src src',
+  wf_node src -> node_perm src src' ->
+  create_walk pat gmatch H MD5 c md5 p name csch src = create_walk pat gmatch H MD5 c md5 p name csch src'.
+Proof. exact create_walk_order_independent. Qed.
+
+Theorem c02_create_walk_bytes_order_independent :
+  forall pat gmatch H MD5 norm host_canon git_suffix o (c : Walk.cfg pat) md5 p name csch src src',
+  wf_node src -> node_perm src src' ->
+  create_walk_bytes pat gmatch H MD5 norm host_canon git_suffix o c md5 p name csch src =
+  create_walk_bytes pat gmatch H MD5 norm host_canon git_suffix o c md5 p name csch src'.
+Proof. exact create_walk_bytes_order_independent. Qed.
+
+(** walker o hasher o metainfo, then verify, through the written bytes: they load back as the
+    creation result (created_bytes_load_back), verifying them against the unmodified tree succeeds,
+    and on any later filesystem the verdict tracks the files the walker selected. Hypotheses as in
+    c02_end_to_end, with UTF-8 names of the TREE ([utf8_node]) in place of a UTF-8 selection. *)
+Check create_walk_end_to_end : forall pat gmatch H MD5,
+  (forall b, length (H b) = 20%nat) -> (forall b, length (MD5 b) = 16%nat) ->
+  (forall b, Forall (fun x => x < 256) (MD5 b)) ->
+  forall norm host_canon git_suffix o (c : Walk.cfg pat) md5 p name csch vsch fs root src t,
+  resolve fs root = Some src -> wf_node src -> utf8_node src -> utf8_ok name = true ->
+  create_walk pat gmatch H MD5 c md5 p name csch src = Some t ->
+  Metainfo.input_ok (input_of t) = true -> Metainfo.opts_ok o = true -> agrees o md5 t ->
+  exists tb c0,
+    create_walk_bytes pat gmatch H MD5 norm host_canon git_suffix o c md5 p name csch src = Some tb /\
+    load tb = Some t /\
+    (forall pa d, In (pa, d) (listing_of c0) <-> walker_selects pat gmatch c src pa d) /\
+    verify_bytes H MD5 vsch fs root tb = Some true /\
+    forall fs',
+      collision_free H p (map snd (listing_of c0)) (map (content fs') (entries root t)) ->
+      (verify_bytes H MD5 vsch fs' root tb = Some true <-> selected_hold pat gmatch c src fs' root).
+Theorem c02_create_walk_end_to_end : forall pat gmatch H MD5,
+  (forall b, length (H b) = 20%nat) -> (forall b, length (MD5 b) = 16%nat) ->
+  (forall b, Forall (fun x => x < 256) (MD5 b)) ->
+  forall norm host_canon git_suffix o (c : Walk.cfg pat) md5 p name csch vsch fs root src t,
+  resolve fs root = Some src -> wf_node src -> utf8_node src -> utf8_ok name = true ->
+  create_walk pat gmatch H MD5 c md5 p name csch src = Some t ->
+  Metainfo.input_ok (input_of t) = true -> Metainfo.opts_ok o = true -> agrees o md5 t ->
+  exists tb c0,
+    create_walk_bytes pat gmatch H MD5 norm host_canon git_suffix o c md5 p name csch src = Some tb /\
+    load tb = Some t /\
+    (forall pa d, In (pa, d) (listing_of c0) <-> walker_selects pat gmatch c src pa d) /\
+    verify_bytes H MD5 vsch fs root tb = Some true /\
+    forall fs',
+      collision_free H p (map snd (listing_of c0)) (map (content fs') (entries root t)) ->
+      (verify_bytes H MD5 vsch fs' root tb = Some true <-> selected_hold pat gmatch c src fs' root).
+Proof. exact create_walk_end_to_end. Qed.
+
+(** instances. /w/in = { .h (hidden), Thumbs.db (junk), skip.log (excluded by --glob '!skip.log'),
+    b = "fghijk", d/a = "abcde" }, default flags, piece length 4, --md5 *)
+Example c02_ex_walk_hyps :
+  resolve w_fs root0 = Some w_src /\ wf_node w_src /\ utf8_node w_src /\ utf8_ok IN = true.
+Proof. exact ex_walk_hyps. Qed.
+Example c02_ex_walk_created :
+  selection gtable Walk.table_match w_cfg w_src = Some w_sel /\
+  exists t, w_create w_cfg w_src = Some t /\
+            paths_of t = w_sel /\
+            tpieces t = w_pieces.
+Proof. exact ex_walk_created. Qed.
+Example c02_ex_walker_selects :
+  walker_selects gtable Walk.table_match w_cfg w_src p_b c_b /\
+  walker_selects gtable Walk.table_match w_cfg w_src p_da c_da /\
+  ~ walker_selects gtable Walk.table_match w_cfg w_src p_hidden c_hid /\
+  ~ walker_selects gtable Walk.table_match w_cfg w_src p_junk c_junk /\
+  ~ walker_selects gtable Walk.table_match w_cfg w_src p_log c_log.
+Proof. exact ex_walker_selects. Qed.
+(** user sort keys decide which torrent results: --sort-by size puts d/a (5 bytes) before b (6) *)
+Example c02_ex_walk_sorted_by_size :
+  exists t, w_create w_cfg_size w_src = Some t /\
+            paths_of t = w_sel_size /\
+            tpieces t = w_pieces_size.
+Proof. exact ex_walk_sorted_by_size. Qed.
+Example c02_ex_walk_all_flags :
+  exists t, w_create w_cfg_all w_src = Some t /\
+            paths_of t = w_sel_all.
+Proof. exact ex_walk_all_flags. Qed.
+(** created and verified; every excluded file edited (hidden rewritten, junk turned into a
+    directory, glob-excluded deleted, a new file added): still verified; last byte of d/a changed:
+    failed; with every flag on the first edit does matter *)
+Example c02_ex_walk_verdicts :
+  w_verdict w_cfg w_fs = Some (Some true) /\
+  w_verdict w_cfg w_fs_excluded_edited = Some (Some true) /\
+  w_verdict w_cfg w_fs_included_edited = Some (Some false) /\
+  w_verdict w_cfg_all w_fs_excluded_edited = Some (Some false).
+Proof. exact ex_walk_verdicts. Qed.
+Example c02_ex_selected_hold :
+  selected_hold gtable Walk.table_match w_cfg w_src w_fs_excluded_edited root0 /\
+  w_fs_excluded_edited <> w_fs /\
+  ~ selected_hold gtable Walk.table_match w_cfg w_src w_fs_included_edited root0.
+Proof. exact ex_selected_hold. Qed.
+Example c02_ex_walk_order :
+  wf_node w_src /\ node_perm w_src w_src_shuffled /\ w_src <> w_src_shuffled /\
+  w_create w_cfg w_src = w_create w_cfg w_src_shuffled /\ w_create w_cfg w_src <> None.
+Proof. exact ex_walk_order. Qed.
+Example c02_ex_walk_e2e :
+  Metainfo.opts_ok MetainfoProofs.ex_opts = true /\
+  match we_t, we_bytes with
+  | Some t, Some tb =>
+      Metainfo.input_ok (input_of t) = true /\
+      agrees (opts_of MetainfoProofs.ex_opts true t) true t /\
+      load tb = Some t /\
+      verify_bytes ex_H ex_MD5 vsch0 w_fs root0 tb = Some true /\
+      verify_bytes ex_H ex_MD5 vsch0 w_fs_excluded_edited root0 tb = Some true /\
+      verify_bytes ex_H ex_MD5 vsch0 w_fs_included_edited root0 tb = Some false
+  | _, _ => False
+  end.
+Proof. exact ex_walk_e2e. Qed.
+Example c02_ex_walk_single :
+  selection gtable Walk.table_match w_cfg w_single = Some [] /\
+  exists t, w_create w_cfg w_single = Some t /\ paths_of t = [[]] /\ tpieces t = w_single_pieces.
+Proof. exact ex_walk_single. Qed.
+(** both parts of [wf_node] are needed *)
+Example c02_ex_walk_needs_distinct_names :
+  ~ wf_node w_dup /\
+  exists t, w_create w_cfg_all w_dup = Some t /\ paths_of t = [[[97]]; [[97]]] /\
+            tpieces t = w_dup_pieces.
+Proof. exact ex_needs_distinct_names. Qed.
+Example c02_ex_walk_needs_plain_names :
+  ~ wf_node w_dotdot /\
+  match w_create w_cfg_all w_dotdot with
+  | Some t => verify idh idh vsch0 (fs_of w_dotdot) root0 t = Some false
+  | None => False
+  end.
+Proof. exact ex_needs_plain_names. Qed.
+
+Print Assumptions c02_create_walk_lists_exactly_the_documented_files.
+Print Assumptions c02_selection_is_the_walkers.
+Print Assumptions c02_create_walk_total.
+Print Assumptions c02_create_walk_then_verify.
+Print Assumptions c02_create_walk_tracks_content.
+Print Assumptions c02_selected_hold_means.
+Print Assumptions c02_create_walk_excluded_edits_irrelevant.
+Print Assumptions c02_create_walk_ignores_unselected.
+Print Assumptions c02_create_walk_included_edit_fails.
+Print Assumptions c02_create_walk_order_independent.
+Print Assumptions c02_create_walk_bytes_order_independent.
+Print Assumptions c02_create_walk_end_to_end.
+Print Assumptions c02_ex_walk_hyps.
+Print Assumptions c02_ex_walk_created.
+Print Assumptions c02_ex_walker_selects.
+Print Assumptions c02_ex_walk_sorted_by_size.
+Print Assumptions c02_ex_walk_all_flags.
+Print Assumptions c02_ex_walk_verdicts.
+Print Assumptions c02_ex_selected_hold.
+Print Assumptions c02_ex_walk_order.
+Print Assumptions c02_ex_walk_e2e.
+Print Assumptions c02_ex_walk_single.
+Print Assumptions c02_ex_walk_needs_distinct_names.
+Print Assumptions c02_ex_walk_needs_plain_names.
